@@ -13,7 +13,7 @@ CLAIMS = {
                 tech='Kani function contracts / proof harnesses on the real crate + Verus on extracted text',
                 ref='DESIGN.md §5 C01, §11'),
     'C07': dict(cat='proof',
-                text='The final-newline and charset/BOM clauses are the postcondition of the tail of CssData::into_buffer, verified by Verus for every byte vector (unbounded) on text extracted from /repo each run (Kani twin on buffers <= 4 bytes gives counterexamples); the brace bookkeeping of CssBuf::start_block/end_block/add_one/add_str/pop_nl/opt_nl is verified by Verus for every buffer and indentation, with the lemma layer L-braces (start_block +1, end_block -1 on the brace balance; indent == 2 * balance is invariant) over those contracts; do_indent/get_indent/long_indent by Kani contracts and Verus.',
+                text='The final-newline and charset/BOM clauses are the postcondition of the tail of CssData::into_buffer, verified by Verus for every byte vector (unbounded) on text extracted from /repo each run (Kani twin on buffers <= 4 bytes gives counterexamples); the brace bookkeeping of CssBuf::new/start_block/end_block/add_one/add_str/pop_nl/opt_nl is verified by Verus for every buffer and indentation, with the lemma layer L-braces (start_block +1, end_block -1 on the brace balance; indent == 2 * balance holds for the buffer CssBuf::new returns and is invariant) over those contracts; do_indent/get_indent/long_indent by Kani contracts and Verus.',
                 note='Item writers other than Property::write (what bytes reach the buffer) and braces inside values/strings are not covered; "no line break in compressed output" is checked for Property::write only (complete body extracted unchanged, real CssBuf, value rendering replaced by a stand-in text with a line break: bounded). Verus type stubs, vstd Vec/str specs and one assumed byte-string literal are trusted and listed.',
                 tech='Verus on extracted into_buffer tail and CssBuf + lemma layer; Kani harnesses on CssBuf and get_indent',
                 ref='DESIGN.md §5 C07, §11'),
